@@ -336,3 +336,36 @@ def _unparen(a):
                     return a
         return a[1:-1].strip()
     return a
+
+
+def r7_str_match(text, log, base_line, item_name):
+    """R7: `match <scrutinee> { "lit" => E, .. , _ => D }` on string slices -> if-chain over `str_is(&tmp, "lit")`
+    (assumed contract: == on str compares the character sequences); `x.to_lowercase().as_str()` -> `str_lower(x)` (assumed:
+    the std lowercase mapping, uninterpreted). Arms keep their order; alternatives `"a" | "b"` become a disjunction."""
+    from . import rustsrc
+    out, pos, n = '', 0, 0
+    while True:
+        m = re.search(r'\bmatch\s+([^{};]+?)\s*\{\s*"', text[pos:])
+        if not m:
+            break
+        ob = pos + m.end() - 1
+        ob = text.rindex('{', pos + m.start(), ob + 1)
+        cb = rustsrc.match_close(text, ob)
+        arms_text = text[ob + 1:cb]
+        arms = []
+        for am in re.finditer(r'((?:"[^"]*"\s*\|\s*)*"[^"]*"|_)\s*=>\s*([^,]+?)\s*(?:,|$)', arms_text.strip()):
+            arms.append((am.group(1), am.group(2).strip()))
+        if not arms or arms[-1][0] != '_':
+            raise UnsupportedConstruct('string match without a final wildcard arm')
+        scrut = m.group(1).strip()
+        scrut2 = re.sub(r'(\w+)\s*\.\s*to_lowercase\s*\(\s*\)\s*\.\s*as_str\s*\(\s*\)', r'str_lower(\1)', scrut)
+        chain = '{ let __m = %s; ' % scrut2
+        for i, (pat, expr) in enumerate(arms[:-1]):
+            cond = ' || '.join('str_is(&__m, %s)' % lit.strip() for lit in pat.split('|'))
+            chain += ('if ' if i == 0 else ' else if ') + cond + ' { ' + expr + ' }'
+        chain += ' else { ' + arms[-1][1] + ' } }'
+        log.append(dict(rule='R7.str_match', line=base_line + text.count('\n', 0, pos + m.start()), old=_short(text[pos + m.start():cb + 1]), new=_short(chain), item=item_name))
+        out += text[pos:pos + m.start()] + chain
+        pos = cb + 1
+        n += 1
+    return out + text[pos:]
